@@ -263,3 +263,242 @@ Definition m_weight (m : mctl) : nat :=
   end.
 Definition measure (st : state) : nat :=
   list_sum (map g_weight (gs st)) + m_weight (mgr st) + 2 * pend st.
+
+(* admissibility of a whole run, spelled out (the hypotheses of C13/C14) *)
+Fixpoint adm_run (st : state) (ls : list label) : Prop :=
+  match ls with
+  | [] => True
+  | l :: r => adm st l /\ match step st l with Some st' => adm_run st' r | None => True end
+  end.
+
+(* ================= correspondence with the real lock manager =================
+
+   The harness drives the real `mutexes` value inside a synctest bubble with
+   commands, lets it run to quiescence (`synctest.Wait`: every goroutine is
+   durably blocked) and records the lock table (`locks` per key), who holds
+   and who waits. The model replays the same commands as a run of `step`,
+   choosing at each hand-over the goroutine that was observed to hold the key
+   afterwards, deleting in a purge exactly the entries observed to disappear,
+   and must arrive at the same table, holders and waiters. Every step taken
+   must be enabled and admissible. *)
+
+Inductive cmd :=
+| CStart (g : nat)     (* goroutine g is told to perform its next script operation *)
+| CLeave (g : nat).    (* holder g is told to Unlock *)
+
+Record round := mkRound {
+  r_cmds : list cmd;              (* in an order consistent with the observed outcome *)
+  r_purges : nat;                 (* purge requests served in this round (ticker, explicit) *)
+  r_exact : bool;                 (* at most one command: purge outcome is checked exactly *)
+  r_stale : list nat;             (* keys not accessed for longer than the timeout, at the end *)
+  r_table : list (nat * nat);     (* observed: key, locks *)
+  r_holders : list (nat * nat);   (* observed: goroutine, key; by goroutine *)
+  r_waiters : list (nat * nat) }. (* observed: goroutine, key; by goroutine *)
+
+Record mcase := mkCase {
+  c_max : N;                      (* mutexMaxCacheSize *)
+  c_scripts : list (list op);
+  c_rounds : list round }.
+
+Definition memb (k : nat) (l : list nat) : bool := existsb (Nat.eqb k) l.
+Definition pair_eqb (a b : nat * nat) : bool := Nat.eqb (fst a) (fst b) && Nat.eqb (snd a) (snd b).
+Fixpoint pairs_eqb (a b : list (nat * nat)) : bool :=
+  match a, b with
+  | [], [] => true
+  | x :: a', y :: b' => pair_eqb x y && pairs_eqb a' b'
+  | _, _ => false
+  end.
+
+(* first index (from i) of a goroutine satisfying p *)
+Fixpoint find_g (p : gor -> bool) (l : list gor) (i : nat) : option nat :=
+  match l with
+  | [] => None
+  | x :: r => if p x then Some i else find_g p r (S i)
+  end.
+
+Definition oversize (mx : N) (st : state) (k : nat) : bool :=
+  match tget (tbl st) k with Some _ => false | None => N.ltb mx (N.of_nat (S (length (tbl st)))) end.
+
+(* the next internal action of a settling system, or None when quiescent *)
+Definition next_label (mx : N) (holders : list (nat * nat)) (st : state) : option label :=
+  let getter k := find_g (fun x => match gc x with GGetItem k' => Nat.eqb k' k | _ => false end) (gs st) 0 in
+  let taker c k :=
+    match getter k with
+    | Some g => Some (LGet g (oversize mx st k))
+    | None =>
+        (* the goroutine blocked on c that is observed to hold k afterwards *)
+        let fix go (l : list gor) (i : nat) : option label :=
+          match l with
+          | [] => None
+          | x :: r =>
+              match gc x with
+              | GWait c' k' =>
+                  if Nat.eqb c' c && existsb (pair_eqb (i, k')) holders then Some (LGrant i) else go r (S i)
+              | _ => go r (S i)
+              end
+          end in
+        go (gs st) 0
+    end in
+  match mgr st with
+  | MAcq k | MRel k => Some (LMgrGet (oversize mx st k))
+  | MAcqSend c k | MRelSend c k => taker c k
+  | MPurge => None
+  | MIdle =>
+      match find_g (fun x => match gc x with GGetItem _ => true | _ => false end) (gs st) 0 with
+      | Some g =>
+          match nth_error (gs st) g with
+          | Some (mkG (GGetItem k) _) => Some (LGet g (oversize mx st k))
+          | _ => None
+          end
+      | None =>
+          match find_g (fun x => match gc x with GSendAcq _ => true | _ => false end) (gs st) 0 with
+          | Some g => Some (LAcquire g)
+          | None =>
+              match find_g (fun x => match gc x with GSendRel _ | GSpur _ => true | _ => false end) (gs st) 0 with
+              | Some g => Some (LRelease g)
+              | None => None
+              end
+          end
+      end
+  end.
+
+(* result codes: 0 = agreement *)
+Definition E_STUCK : N := 1.       (* a step the replay needs is not enabled *)
+Definition E_INADM : N := 2.       (* the run leaves the admissible runs (generator error) *)
+Definition E_TABLE : N := 3.       (* lock table differs *)
+Definition E_HOLD : N := 4.        (* holders differ *)
+Definition E_WAIT : N := 5.        (* waiters differ *)
+Definition E_PURGE : N := 6.       (* purge removed / kept entries against the code's rule *)
+Definition E_BUSY : N := 7.        (* model not quiescent where the real system was *)
+Definition E_OBS : N := 8.         (* the observation itself breaks the quiescent invariant *)
+Definition E_UNFIN : N := 9.       (* scripts not finished at the end *)
+
+Definition do_step (st : state) (l : label) : state + N :=
+  if admb st l then match step st l with Some st' => inl st' | None => inr E_STUCK end
+  else inr E_INADM.
+
+Fixpoint settle (fuel : nat) (mx : N) (holders : list (nat * nat)) (st : state) : state + N :=
+  match fuel with
+  | O => inr E_BUSY
+  | S f =>
+      match next_label mx holders st with
+      | None => inl st
+      | Some l => match do_step st l with inl st' => settle f mx holders st' | inr e => inr e end
+      end
+  end.
+
+Definition settle_fuel (st : state) : nat := measure st + 1.
+
+Fixpoint do_cmds (mx : N) (holders : list (nat * nat)) (cs : list cmd) (st : state) : state + N :=
+  match cs with
+  | [] => settle (settle_fuel st) mx holders st
+  | c :: r =>
+      let l := match c with CStart g => LStart g | CLeave g => LLeave g end in
+      match do_step st l with
+      | inl st1 =>
+          match settle (settle_fuel st1) mx holders st1 with
+          | inl st2 => do_cmds mx holders r st2
+          | inr e => inr e
+          end
+      | inr e => inr e
+      end
+  end.
+
+Definition obs_keys (r : round) : list nat := map fst (r_table r).
+
+(* the code's purge rule, checked on what was observed to disappear *)
+Definition purge_rule_ok (mx : N) (r : round) (t : table) : bool :=
+  let gone k := negb (memb k (obs_keys r)) in
+  let stale k := memb k (r_stale r) in
+  (* a stale entry never survives a purge *)
+  forallb (fun p => negb (stale (fst p)) || gone (fst p)) t &&
+  (* an unlocked fresh entry survives only once the table is small enough *)
+  (negb (existsb (fun p => negb (gone (fst p)) && negb (stale (fst p)) && Nat.eqb (locks (snd p)) 0) t)
+   || N.leb (N.of_nat (length (r_table r))) mx) &&
+  (* a fresh entry is removed only from a table that is too big *)
+  (negb (existsb (fun p => gone (fst p) && negb (stale (fst p))) t) || N.ltb mx (N.of_nat (length t))).
+
+(* serve pending purge requests down to the reserve *)
+Fixpoint do_purges (fuel : nat) (mx : N) (reserve : nat) (r : round) (st : state) : state + N :=
+  match fuel with
+  | O => inr E_BUSY
+  | S f =>
+      if Nat.leb (pend st) reserve then inl st
+      else
+        let t := tbl st in
+        let dels := map (fun p => (fst p, memb (fst p) (r_stale r), true))
+                        (filter (fun p => negb (memb (fst p) (obs_keys r))) t) in
+        match do_step st LPurgeReq with
+        | inl st1 =>
+            match do_step st1 (LPurge dels) with
+            | inl st2 =>
+                if negb (r_exact r) || purge_rule_ok mx r t then do_purges f mx reserve r st2 else inr E_PURGE
+            | inr e => inr e
+            end
+        | inr e => inr e
+        end
+  end.
+
+Definition model_holders (st : state) : list (nat * nat) :=
+  let fix go (l : list gor) (i : nat) :=
+    match l with
+    | [] => []
+    | x :: r => match gc x with GHold k => (i, k) :: go r (S i) | _ => go r (S i) end
+    end in go (gs st) 0.
+Definition model_waiters (st : state) : list (nat * nat) :=
+  let fix go (l : list gor) (i : nat) :=
+    match l with
+    | [] => []
+    | x :: r => match gc x with GWait _ k => (i, k) :: go r (S i) | _ => go r (S i) end
+    end in go (gs st) 0.
+Definition quiet (st : state) : bool :=
+  match mgr st with MIdle => true | _ => false end &&
+  forallb (fun x => match gc x with GIdle | GWait _ _ | GHold _ => true | _ => false end) (gs st).
+
+Definition table_agrees (st : state) (obs : list (nat * nat)) : bool :=
+  Nat.eqb (length (tbl st)) (length obs) &&
+  forallb (fun p => match tget (tbl st) (fst p) with Some e => Nat.eqb (locks e) (snd p) | None => false end) obs.
+
+(* the quiescent form of the invariant, evaluated on the real observation:
+   locks k = holders of k + waiters on k, at most one holder, a waiter implies
+   a holder *)
+Definition obs_inv_ok (r : round) : bool :=
+  let nh k := length (filter (fun p => Nat.eqb (snd p) k) (r_holders r)) in
+  let nw k := length (filter (fun p => Nat.eqb (snd p) k) (r_waiters r)) in
+  let lk k := match find (fun p => Nat.eqb (fst p) k) (r_table r) with Some p => snd p | None => 0 end in
+  let keys := obs_keys r ++ map snd (r_holders r) ++ map snd (r_waiters r) in
+  forallb (fun k => Nat.eqb (lk k) (nh k + nw k) && Nat.leb (nh k) 1 && (Nat.eqb (nw k) 0 || Nat.eqb (nh k) 1)) keys.
+
+Definition do_round (mx : N) (reserve : nat) (r : round) (st : state) : state + N :=
+  if negb (obs_inv_ok r) then inr E_OBS else
+  match do_cmds mx (r_holders r) (r_cmds r) st with
+  | inr e => inr e
+  | inl st1 =>
+      match do_purges (S (pend st1)) mx reserve r st1 with
+      | inr e => inr e
+      | inl st2 =>
+          if negb (quiet st2) then inr E_BUSY
+          else if negb (table_agrees st2 (r_table r)) then inr E_TABLE
+          else if negb (pairs_eqb (model_holders st2) (r_holders r)) then inr E_HOLD
+          else if negb (pairs_eqb (model_waiters st2) (r_waiters r)) then inr E_WAIT
+          else inl st2
+      end
+  end.
+
+(* 0, or 16 * (round index + 1) + error code *)
+Fixpoint do_rounds (mx : N) (reserve : nat) (rs : list round) (i : N) (st : state) : N :=
+  match rs with
+  | [] => if finished st then 0%N else (16 * (i + 1) + E_UNFIN)%N
+  | r :: rest =>
+      let reserve' := reserve - r_purges r in
+      match do_round mx reserve' r st with
+      | inl st' => do_rounds mx reserve' rest (i + 1)%N st'
+      | inr e => (16 * (i + 1) + e)%N
+      end
+  end.
+
+Definition replay_case (c : mcase) : N :=
+  let total := list_sum (map r_purges (c_rounds c)) in
+  do_rounds (c_max c) total (c_rounds c) 0%N (init (c_scripts c) total).
+
+Definition mutex_codes (cs : list mcase) : list N := map replay_case cs.
